@@ -50,8 +50,8 @@ type genCase struct {
 type histCase struct {
 	Kind  string  `json:"kind"` // "hist"
 	H     history `json:"h"`
-	CSeed int64   `json:"cseed"` // concretisation of the values
-	RSeed int64   `json:"rseed"` // rendering
+	CSeed int64   `json:"cseed"`           // concretisation of the values
+	RSeed int64   `json:"rseed"`           // rendering
 	Crypt string  `json:"crypt,omitempty"` // "", "none" or one of cryptNames
 }
 
@@ -289,7 +289,6 @@ func run(ctx *core.Ctx) error {
 	ctx.Ev.Set("renderings_per_history", variants)
 	ctx.Ev.Set("random_histories", nrand)
 	ctx.Ev.Set("key_scope_histories_encrypted", nkey)
-	ctx.Ev.Set("encrypted_renderings", st.encrypted)
 	if len(hcases) > 0 {
 		ctx.Ev.Sample(map[string]any{"kind": "table line of Gen_XRefHistory", "case": hcases[len(hcases)/2]})
 	}
@@ -335,6 +334,7 @@ func run(ctx *core.Ctx) error {
 		ctx.Logf("histories: %d of the %d histories of 3 revisions x 3 objects executed on pdf.NewReader", taken, n3)
 	}
 	ctx.Ev.Set("files_with_subsection_1_first_entry_65535", st.triggers)
+	ctx.Ev.Set("encrypted_renderings", st.encrypted)
 	for _, k := range core.SortedKeys(st.seenKey) {
 		ctx.Logf("rejected records of class %s: %d", k, st.seenKey[k])
 	}
